@@ -469,11 +469,29 @@ func (x *envExec) do(op EnvOp) (ob EnvObs) {
 			ob.R, ob.N = "session", idx
 		case "encrypt":
 			pl := x.payload(op.Payload)
-			cp := append([]byte(nil), pl...)
+			// the caller's buffer: every other payload is a slice of a larger arena (spare capacity behind it, like a
+			// reusable read buffer); the whole arena must be untouched, and the caller reuses it after Encrypt returned
+			spare := 0
+			if op.Payload%2 == 1 {
+				spare = 64
+			}
+			arena := make([]byte, len(pl)+spare)
+			copy(arena, pl)
+			for i := len(pl); i < len(arena); i++ {
+				arena[i] = 0xA5
+			}
+			before := append([]byte(nil), arena...)
+			cp := arena[:len(pl):len(arena)]
 			ob.Part = gen.H(x.sessPart[op.S])
 			rec, err := x.sessions[op.S].Encrypt(ctx, cp)
-			if !bytes.Equal(cp, pl) {
+			if !bytes.Equal(arena, before) {
 				ob.Frame = "encrypt modified the caller's payload"
+				if bytes.Equal(arena[:len(pl)], pl) {
+					ob.Frame = "encrypt wrote into the caller's buffer beyond the payload"
+				}
+			}
+			for i := range arena { // the caller reuses its buffer
+				arena[i] = 0xEE
 			}
 			if err != nil {
 				ob.R = "err"
